@@ -8,10 +8,10 @@
    (Deletion: [START,END) removed; Insertion: gene[DONOR_START,DONOR_END) inserted after POS; Substitution:
    [START,END) replaced by gene[DONOR_START,DONOR_END); gene coordinates mapped to transcript coordinates through the
    exon list, both strands) gives exactly the sequence of the exon list alt. *)
-From MoPep Require Import Model.Base Model.Rmats Proofs.RmatsProofs.
+From MoPep Require Import Model.Base Model.Rmats Proofs.RmatsProofs Gen.RmatsConst.
 Open Scope Z_scope.
 
-(* FULL STATEMENT (rmats_reproduces_isoform), of which the SE clause is proved below:
+(* FULL STATEMENT (rmats_reproduces_isoform), of which the SE, RI and MXE clauses are proved below:
      for every wf gene, both strands, every event, every record r emitted by the event's converter and every
      transcript t = g_txs[r_tx r] whose exons coincide with the event (alt_X (t_exons t) ... = Some alt):
         denotes g chrom t r alt
@@ -19,19 +19,37 @@ Open Scope Z_scope.
            alt_ss  (A5SS and A3SS: alternative splice site moved between the long and the short form),
            alt_mxe (exon swapped),
            alt_ri  (intron retained / spliced)                     -- all four defined in Model/Rmats.v.
-   Proved here: the SE clause, for all inputs, both strands (deletion when the transcript carries U,E,D; insertion
-   when it carries U,D).  NOT proved in Coq (time): the A5SS/A3SS, RI and MXE clauses; for those event types the
-   statement is checked only by the correspondence (model == implementation on every generated event, and the
-   independent python reconstruction == ground-truth isoform on every in-scope record). *)
+   Proved here for all inputs, both strands: the SE clause (deletion when the transcript carries U,E,D; insertion
+   when it carries U,D) and the RI clause (insertion of the intron when the transcript is spliced at upstreamEE /
+   downstreamES; deletion of the intron when one exon of the transcript covers it) and the MXE clause (the exclusive
+   exon the transcript carries between U and D is substituted by the other one, which lies in an intron next to it).
+   NOT proved in Coq (time): the A5SS/A3SS clause; for those two event types the statement is checked only by the
+   correspondence (model == implementation on every generated event, and the independent python reconstruction ==
+   ground-truth isoform on every in-scope record). *)
 Theorem rmats_reproduces_isoform_partial :
-  forall g chrom es ee us ue ds de c id rs,
-  wf_gene g chrom -> ue < es -> es < ee -> ee < ds ->
-  se_convert g (gene_seq (g_strand g) chrom (g_start g) (g_end g)) es ee us ue ds de c = Ok (id, rs) ->
-  forall r, In r rs -> forall t alt,
-    0 <= r_tx r -> nth_error (g_txs g) (Z.to_nat (r_tx r)) = Some t ->
-    alt_se (t_exons t) (us, ue) (es, ee) (ds, de) = Some alt ->
-    denotes g chrom t r alt.
-Proof. exact rmats_se_reproduces. Qed.
+  (forall g chrom es ee us ue ds de c id rs,
+   wf_gene g chrom -> ue < es -> es < ee -> ee < ds ->
+   se_convert g (gene_seq (g_strand g) chrom (g_start g) (g_end g)) es ee us ue ds de c = Ok (id, rs) ->
+   forall r, In r rs -> forall t alt,
+     0 <= r_tx r -> nth_error (g_txs g) (Z.to_nat (r_tx r)) = Some t ->
+     alt_se (t_exons t) (us, ue) (es, ee) (ds, de) = Some alt ->
+     denotes g chrom t r alt) /\
+  (forall g chrom ue ds c id rs,
+   wf_gene g chrom -> ue < ds ->
+   ri_convert g (gene_seq (g_strand g) chrom (g_start g) (g_end g)) ue ds c = Ok (id, rs) ->
+   forall r, In r rs -> forall t alt,
+     0 <= r_tx r -> nth_error (g_txs g) (Z.to_nat (r_tx r)) = Some t ->
+     alt_ri (t_exons t) ue ds = Some alt ->
+     denotes g chrom t r alt) /\
+  (forall g chrom f1s f1e f2s f2e us ue ds de c id rs,
+   wf_gene g chrom -> ue < f1s -> f1s < f1e -> f1e < f2s -> f2s < f2e -> f2e < ds ->
+   mxe_convert g (gene_seq (g_strand g) chrom (g_start g) (g_end g)) f1s f1e f2s f2e us ue ds de c = Ok (id, rs) ->
+   forall r, In r rs -> forall t alt,
+     0 <= r_tx r -> nth_error (g_txs g) (Z.to_nat (r_tx r)) = Some t ->
+     (alt_mxe (t_exons t) (us, ue) (f1s, f1e) (f2s, f2e) (ds, de) = Some alt \/
+      alt_mxe (t_exons t) (us, ue) (f2s, f2e) (f1s, f1e) (ds, de) = Some alt) ->
+     denotes g chrom t r alt).
+Proof. exact (conj rmats_se_reproduces (conj rmats_ri_reproduces rmats_mxe_reproduces)). Qed.
 Print Assumptions rmats_reproduces_isoform_partial.
 
 (* no record when every junction of the event is already annotated in some isoform of the gene
@@ -75,6 +93,11 @@ Proof.
 Qed.
 Print Assumptions rmats_thresholds.
 
+(* the 'already retained' test of RIRecord has the shape the model assumes (regenerated from the source on every run) *)
+Theorem rmats_ri_test_recognised : Gen.RmatsConst.ri_test_recognised = true /\ 0 <= Gen.RmatsConst.ri_end_slack <= 3.
+Proof. vm_compute. split; [reflexivity|split; discriminate]. Qed.
+Print Assumptions rmats_ri_test_recognised.
+
 (* ---- the hypotheses are satisfiable by non-trivial states ---- *)
 Definition ex_chrom : list Z := (* 60 bases ACGT... *)
   flat_map (fun _ => [65; 67; 71; 84; 84; 71]) (repeat tt 10).
@@ -115,6 +138,20 @@ Proof.
   - exists ex_tx1, [], (2, 10), (30, 50), []. cbn. auto.
   - exists ex_tx0, [], (2, 10), (15, 22), [(30, 50)]. cbn. auto.
   - exists ex_tx0, [(2, 10)], (15, 22), (30, 50), []. cbn. auto.
+Qed.
+
+(* RI, minus strand: a spliced isoform gets the intron inserted; a retaining isoform (alone) gets it deleted *)
+Example ex_ri :
+  (let g := mkGene (-1) 2 50 [ex_tx1] in
+   exists id r, ri_convert g (gene_seq (-1) ex_chrom 2 50) 10 30 ex_counts = Ok (id, [r]) /\ r_kind r = KIns /\
+     alt_ri (t_exons ex_tx1) 10 30 = Some [(2, 50)] /\ denotes g ex_chrom ex_tx1 r [(2, 50)]) /\
+  (let t := mkTx [(2, 50)] 2 50 in let g := mkGene (-1) 2 50 [t] in
+   exists id r, ri_convert g (gene_seq (-1) ex_chrom 2 50) 10 30 ex_counts = Ok (id, [r]) /\ r_kind r = KDel /\
+     denotes g ex_chrom t r [(2, 10); (30, 50)]).
+Proof.
+  cbv zeta. split.
+  - do 2 eexists. split; [vm_compute; reflexivity|]. split; [reflexivity|]. split; [reflexivity|]. vm_compute. reflexivity.
+  - do 2 eexists. split; [vm_compute; reflexivity|]. split; [reflexivity|]. vm_compute. reflexivity.
 Qed.
 
 (* the MXE skipped form at SJC = min_sjc is dropped although the SE skipped form at SJC = min_sjc is kept *)
